@@ -14,7 +14,6 @@ Lemma typed_method_http : site_typed st_method_http = true. Proof. vm_compute. r
 Lemma typed_method_opts : site_typed st_method_opts = true. Proof. vm_compute. reflexivity. Qed.
 Lemma typed_service_opts : site_typed st_service_opts = true. Proof. vm_compute. reflexivity. Qed.
 Lemma typed_object_msg : site_typed st_object_msg = true. Proof. vm_compute. reflexivity. Qed.
-Lemma untyped_listreq : site_typed st_method_listreq = false. Proof. vm_compute. reflexivity. Qed.
 Lemma imp_of_XEnum : ext_imp XEnum = Some IJ5Ext. Proof. vm_compute. reflexivity. Qed.
 Lemma imp_of_XEnumValue : ext_imp XEnumValue = Some IJ5Ext. Proof. vm_compute. reflexivity. Qed.
 Lemma imp_of_XHttp : ext_imp XHttp = Some IGApiAnnotations. Proof. vm_compute. reflexivity. Qed.
@@ -109,9 +108,9 @@ Qed.
 (* ---- services: any number of methods *)
 Definition no_list_request (ms : list method) : Prop := forall m, In m ms -> m_list_request m = false.
 
-Lemma method_sound s m : m_list_request m = false -> sound s -> sound (visit_method s m).
+Lemma method_sound s m : sound s -> sound (visit_method s m).
 Proof.
-  intros Hl Hs. unfold visit_method.
+  intros Hs. unfold visit_method.
   assert (S0 : sound (ens IGApiAnnotations s)) by (apply sound_ens; exact Hs).
   destruct (m_request m); cbn [negb]; [|apply sound_err; exact S0].
   set (s1 := if m_raw_response m then ens IGApiHttpBody (ens IGApiAnnotations s) else ens IGApiAnnotations s).
@@ -129,21 +128,20 @@ Proof.
   assert (Ho : sound (if m_options m then set_d st_method_opts (ens IJ5Ext (set_d st_method_http s2)) else set_d st_method_http s2)).
   { destruct (m_options m); [|exact Hh].
     apply (sound_set _ IJ5Ext); [exact typed_method_opts|exact imp_of_XMethod|apply mem_ens_same|apply sound_ens; exact Hh]. }
-  rewrite Hl.
-  destruct (m_http m); try exact Ho. apply sound_err. exact S2.
+  destruct (m_http m); try (destruct (m_list_request m); [apply sound_err|]; exact Ho). apply sound_err. exact S2.
 Qed.
 
-Lemma methods_sound ms : forall s, no_list_request ms -> sound s -> sound (fold_left visit_method ms s).
+Lemma methods_sound ms : forall s, sound s -> sound (fold_left visit_method ms s).
 Proof.
-  induction ms as [|m r IH]; intros s Hn Hs; cbn [fold_left]; [exact Hs|].
-  apply IH; [intros x Hx; apply Hn; right; exact Hx|]. apply method_sound; [apply Hn; left; reflexivity|exact Hs].
+  induction ms as [|m r IH]; intros s Hs; cbn [fold_left]; [exact Hs|].
+  apply IH. apply method_sound. exact Hs.
 Qed.
 
-Lemma service_sound sv : no_list_request (sv_methods sv) -> sound (compile_service sv).
+Lemma service_sound sv : sound (compile_service sv).
 Proof.
-  intro Hn. unfold compile_service.
+  unfold compile_service.
   set (s := fold_left visit_method (sv_methods sv) d0).
-  assert (S : sound s) by (apply methods_sound; [exact Hn|apply sound_d0]).
+  assert (S : sound s) by (apply methods_sound; apply sound_d0).
   set (s1 := if sv_options sv then set_d st_service_opts (ens IJ5Ext s) else s).
   assert (S1 : sound s1).
   { unfold s1. destruct (sv_options sv); [|exact S].
@@ -152,46 +150,47 @@ Proof.
   apply (sound_set _ IJ5Ext); [exact typed_object_msg|exact imp_of_XMessage|apply mem_ens_same|apply sound_ens; exact S1].
 Qed.
 
-(* no panic and no link error for any service without list requests *)
-Theorem service_total_links : forall sv, no_list_request (sv_methods sv) ->
+(* no panic and no link error for ANY service (since fix 985f10a a list request is an error, not a panic) *)
+Theorem service_total_links : forall sv,
   verdict_d (compile_service sv) <> VPanic /\ verdict_d (compile_service sv) <> VLinkErr.
 Proof.
-  intros sv Hn. destruct (service_sound sv Hn) as [P L]. unfold verdict_d. rewrite P.
+  intros sv. destruct (service_sound sv) as [P L]. unfold verdict_d. rewrite P.
   destruct (Nat.ltb 0 (d_nerr (compile_service sv))); [split; discriminate|]. rewrite L. split; discriminate.
 Qed.
 
 (* errors are only recorded for methods outside the language *)
-Lemma method_nerr s m : method_in_language m = true -> d_nerr (visit_method s m) = d_nerr s.
+Lemma method_nerr s m : method_in_language m = true -> m_list_request m = false -> d_nerr (visit_method s m) = d_nerr s.
 Proof.
-  unfold method_in_language, visit_method. intro H.
+  unfold method_in_language, visit_method. intros H Hlr.
   apply andb_prop in H. destruct H as [H Hh]. apply andb_prop in H. destruct H as [Hr Hp].
-  rewrite Hr, Hp. cbn [negb].
-  assert (E : forall t, d_nerr (if m_list_request m then set_d st_method_listreq t else t) = d_nerr t)
-    by (intro t; destruct (m_list_request m); [apply nerr_set|reflexivity]).
+  rewrite Hr, Hp, Hlr. cbn [negb].
+  assert (E : forall t : dstate, d_nerr t = d_nerr t) by reflexivity.
   assert (E2 : forall t, d_nerr (if m_options m then set_d st_method_opts (ens IJ5Ext t) else t) = d_nerr t)
     by (intro t; destruct (m_options m); [rewrite nerr_set; reflexivity|reflexivity]).
-  destruct (m_http m); try discriminate; rewrite E, E2, nerr_set; destruct (m_raw_response m); reflexivity.
+  destruct (m_http m); try discriminate; rewrite E2, nerr_set; destruct (m_raw_response m); reflexivity.
 Qed.
-Lemma methods_nerr ms : forall s, forallb method_in_language ms = true -> d_nerr (fold_left visit_method ms s) = d_nerr s.
+Lemma methods_nerr ms : forall s, forallb method_in_language ms = true -> no_list_request ms ->
+  d_nerr (fold_left visit_method ms s) = d_nerr s.
 Proof.
-  induction ms as [|m r IH]; intros s H; cbn [fold_left]; [reflexivity|].
-  cbn [forallb] in H. apply andb_prop in H. destruct H as [Hm Hr]. rewrite IH by exact Hr. apply method_nerr. exact Hm.
+  induction ms as [|m r IH]; intros s H Hn; cbn [fold_left]; [reflexivity|].
+  cbn [forallb] in H. apply andb_prop in H. destruct H as [Hm Hr].
+  rewrite IH; [|exact Hr|intros x Hx; apply Hn; right; exact Hx]. apply method_nerr; [exact Hm|apply Hn; left; reflexivity].
 Qed.
 
 Theorem service_accepted : forall sv,
   service_in_language sv = true -> no_list_request (sv_methods sv) -> verdict_d (compile_service sv) = VOk.
 Proof.
-  intros sv Hl Hn. apply verdict_ok; [apply service_sound; exact Hn|].
+  intros sv Hl Hn. apply verdict_ok; [apply service_sound|].
   unfold service_in_language in Hl. apply andb_prop in Hl. destruct Hl as [_ Hf].
   unfold compile_service, visit_io_objects.
-  assert (N0 : d_nerr (fold_left visit_method (sv_methods sv) d0) = 0) by (rewrite methods_nerr; [reflexivity|exact Hf]).
+  assert (N0 : d_nerr (fold_left visit_method (sv_methods sv) d0) = 0) by (rewrite methods_nerr; [reflexivity|exact Hf|exact Hn]).
   destruct (sv_options sv), (existsb m_request (sv_methods sv)); repeat (rewrite ?nerr_set, ?nerr_ens); exact N0.
 Qed.
 
-(* the full statement for services fails: a list request panics (recorded finding) *)
+(* the full statement for services fails: a list request is rejected (recorded finding; it panicked before fix 985f10a) *)
 Definition listreq_service := mkService [mkMethod true HGet false true false true] false.
-Lemma service_listrequest_panics :
-  service_in_language listreq_service = true /\ verdict_d (compile_service listreq_service) = VPanic.
+Lemma service_listrequest_rejected :
+  service_in_language listreq_service = true /\ verdict_d (compile_service listreq_service) = VConvErr.
 Proof. vm_compute. split; reflexivity. Qed.
 
 (* ---- topics, object and oneof shells *)
@@ -213,7 +212,7 @@ Proof. vm_compute. reflexivity. Qed.
    sites by build_property / set_j5ext (CmpbFields.v), the declaration sites by the functions above *)
 Definition decl_sites_used : list site :=
   [st_topic_service; st_object_psm; st_object_msg; st_oneof_msg; st_enum_info; st_enum_value;
-   st_service_opts; st_method_http; st_method_opts; st_method_listreq].
+   st_service_opts; st_method_http; st_method_opts].
 Lemma decl_sites_are_model_sites :
   forallb (fun x => existsb (fun y => String.eqb (s_func x) (s_func y) && ext_eqb (s_ext x) (s_ext y)) model_sites) decl_sites_used = true.
 Proof. vm_compute. reflexivity. Qed.
@@ -222,7 +221,7 @@ Definition service_full_statement : Prop :=
   forall sv, service_in_language sv = true -> verdict_d (compile_service sv) = VOk.
 Lemma service_full_refuted : ~ service_full_statement.
 Proof.
-  intro H. destruct service_listrequest_panics as [Hl Hp]. rewrite (H _ Hl) in Hp. discriminate.
+  intro H. destruct service_listrequest_rejected as [Hl Hp]. rewrite (H _ Hl) in Hp. discriminate.
 Qed.
 
 (* ------------------------------------------------------------ whole files, by induction over the declarations *)
@@ -285,16 +284,17 @@ Proof.
   destruct (links_d s) eqn:L; [|discriminate]. intros _. split; [split; assumption|]. apply Nat.ltb_ge in N. lia.
 Qed.
 
-Lemma sound_decl d : decl_has_list_request d = false -> sound (decl_state d).
+Lemma sound_decl_all d : sound (decl_state d).
 Proof.
-  destruct d as [entity props|props|e|sv|t]; cbn [decl_state decl_has_list_request]; intro H.
+  destruct d as [entity props|props|e|sv|t]; cbn [decl_state].
   - apply sound_props. apply (sound_of_ok _ (object_shell_accepted entity)).
   - apply sound_props. apply (sound_of_ok _ oneof_shell_accepted).
   - apply (sound_of_ok _ (enum_accepted e)).
-  - apply service_sound. intros m Hm. destruct (m_list_request m) eqn:E; [|reflexivity].
-    assert (existsb m_list_request (sv_methods sv) = true) by (apply existsb_exists; eauto). congruence.
+  - apply service_sound.
   - apply (sound_of_ok _ (topic_accepted t)).
 Qed.
+Lemma sound_decl d : decl_has_list_request d = false -> sound (decl_state d).
+Proof. intros _. apply sound_decl_all. Qed.
 Lemma nerr_decl d : decl_in_language d = true -> decl_has_list_request d = false -> d_nerr (decl_state d) = 0.
 Proof.
   destruct d as [entity props|props|e|sv|t]; cbn [decl_state decl_in_language decl_has_list_request]; intros Hl Hr.
@@ -309,13 +309,15 @@ Qed.
 
 Definition no_list_requests (ds : list decl) : Prop := forall d, In d ds -> decl_has_list_request d = false.
 
-Lemma sound_file t ds : no_list_requests ds -> forall s, sound s ->
+Lemma sound_file_all t ds : forall s, sound s ->
   sound (fold_left (fun s d => if target_eqb (decl_target d) t then merge s (decl_state d) else s) ds s).
 Proof.
-  induction ds as [|d r IH]; intros Hn s Hs; cbn [fold_left]; [exact Hs|].
-  apply IH; [intros x Hx; apply Hn; right; exact Hx|].
-  destruct (target_eqb (decl_target d) t); [|exact Hs]. apply sound_merge; [exact Hs|]. apply sound_decl. apply Hn. left. reflexivity.
+  induction ds as [|d r IH]; intros s Hs; cbn [fold_left]; [exact Hs|].
+  apply IH. destruct (target_eqb (decl_target d) t); [|exact Hs]. apply sound_merge; [exact Hs|apply sound_decl_all].
 Qed.
+Lemma sound_file t ds : no_list_requests ds -> forall s, sound s ->
+  sound (fold_left (fun s d => if target_eqb (decl_target d) t then merge s (decl_state d) else s) ds s).
+Proof. intros _. apply sound_file_all. Qed.
 Lemma nerr_file t ds : no_list_requests ds -> forallb decl_in_language ds = true -> forall s,
   d_nerr (fold_left (fun s d => if target_eqb (decl_target d) t then merge s (decl_state d) else s) ds s) = d_nerr s.
 Proof.
@@ -324,18 +326,28 @@ Proof.
   destruct (target_eqb (decl_target d) t); [|reflexivity]. rewrite nerr_merge, (nerr_decl d Hd); [lia|]. apply Hn. left. reflexivity.
 Qed.
 
-(* a file of ANY declarations without list requests: the converter does not panic and, when no error
-   is recorded, all three output files link *)
-Theorem file_total_links : forall ds, no_list_requests ds ->
-  file_verdict ds <> VPanic /\ file_verdict ds <> VLinkErr.
+(* a file of ANY declarations: the converter does not panic and, when no error is recorded, all three output
+   files link (since fix 985f10a a list request is an error like any other) *)
+Theorem file_total_links_all : forall ds, file_verdict ds <> VPanic /\ file_verdict ds <> VLinkErr.
 Proof.
-  intros ds Hn.
-  destruct (sound_file FMain ds Hn d0 sound_d0) as [P1 L1].
-  destruct (sound_file FService ds Hn d0 sound_d0) as [P2 L2].
-  destruct (sound_file FTopic ds Hn d0 sound_d0) as [P3 L3].
+  intros ds.
+  destruct (sound_file_all FMain ds d0 sound_d0) as [P1 L1].
+  destruct (sound_file_all FService ds d0 sound_d0) as [P2 L2].
+  destruct (sound_file_all FTopic ds d0 sound_d0) as [P3 L3].
   unfold file_verdict, file_panics, file_state. rewrite P1, P2, P3. cbn [orb].
   destruct (Nat.ltb 0 (file_nerr ds)); [split; discriminate|].
   unfold file_state in L1, L2, L3 |- *. rewrite L1, L2, L3. split; discriminate.
+Qed.
+
+Theorem file_total_links : forall ds, no_list_requests ds ->
+  file_verdict ds <> VPanic /\ file_verdict ds <> VLinkErr.
+Proof. intros ds _. apply file_total_links_all. Qed.
+Lemma file_never_panics ds : file_panics ds = false.
+Proof.
+  destruct (sound_file_all FMain ds d0 sound_d0) as [P1 _].
+  destruct (sound_file_all FService ds d0 sound_d0) as [P2 _].
+  destruct (sound_file_all FTopic ds d0 sound_d0) as [P3 _].
+  unfold file_panics, file_state. rewrite P1, P2, P3. reflexivity.
 Qed.
 
 (* every file whose declarations are in the documented language (minus the recorded gaps) is accepted *)
